@@ -216,6 +216,11 @@ def try_(b, x, h):
     return {"n": "try", "b": b, "x": x, "h": h}
 
 
+def tryp(b, p, h):
+    """try b catch <pattern p> -> h"""
+    return {"n": "tryp", "b": b, "p": p, "h": h}
+
+
 def param(x, default=None, splat=False):
     return {"x": x, "d": default if default is not None else NONE, "sp": splat}
 
@@ -402,6 +407,8 @@ def pp(e):
         return "(switch (%s) %s)" % (pp(e["e"]), " ".join("case %s -> %s" % (p_lv(a["p"]), pp(a["b"])) for a in e["arms"]))
     if n == "try":
         return "(try %s catch %s -> %s)" % (pp(e["b"]), e["x"], pp(e["h"]))
+    if n == "tryp":
+        return "(try %s catch %s -> %s)" % (pp(e["b"]), p_lv(e["p"]), pp(e["h"]))
     if n == "lam":
         ps = []
         for p in e["ps"]:
